@@ -79,8 +79,8 @@ def check_case(case):
     if len(slots) != len(agents):
         raise pddl.Invalid("one slot per agent")
     for ag, m in zip(agents, slots):
-        if m[0] != "nop" and (len(m) < 2 or m[1] != ag):
-            raise pddl.Invalid("slot i holds an action of agent i")
+        if m[0] != "nop" and len(m) >= 2 and m[1] != ag:
+            raise pddl.Invalid("slot i holds an action of agent i (or a parameterless action)")
     members = [m for m in slots if m[0] != "nop"]
     if not members:
         raise pddl.Invalid("at least one member")
@@ -136,9 +136,9 @@ def check_case(case):
     okp, problem = lib_call(parse_problem_text, problem_text(dom, objects, st), domain)
     if not okp:
         return res
-    line = "[" + ",".join("(" + " ".join(m) + (" " if m[0] == "nop" else "") + ")" for m in slots) + "]"
+    line = "[" + ",".join("(" + " ".join(m) + (" " if len(m) == 1 else "") + ")" for m in slots) + "]"
     second = case.get("second")
-    lines = [line] + ([("[" + ",".join("(" + " ".join(m) + (" " if m[0] == "nop" else "") + ")" for m in second) + "]")] if second else [])
+    lines = [line] + ([("[" + ",".join("(" + " ".join(m) + (" " if len(m) == 1 else "") + ")" for m in second) + "]")] if second else [])
 
     def run():
         ex = MultiAgentTrajectoryExporter(domain)
@@ -161,6 +161,9 @@ def check_case(case):
         return res
     if len(trip) > 1 and not pddl.states_equal(trip[1][0], trip[0][2]):
         res.bad("C16/exporter/chain", info)
+        return res
+    if len(trip) > 1 and all(m[0] == "nop" for m in second) and not pddl.states_equal(trip[1][2], trip[1][0]):
+        res.bad("C16/exporter/all-nop-step-changed-the-state", {**info, "diff": pddl.state_diff(trip[1][0], trip[1][2])})
         return res
     try:
         tree = sexpr.read(text)
@@ -198,7 +201,7 @@ def gen_joint(ch, dom, objects, world, st, prefer_applicable=True):
         cands = []
         for a in dom["actions"]:
             for call in world.calls(a):
-                if call and call[0] == ag:
+                if (call and call[0] == ag) or not a["params"]:
                     cands.append([a["name"]] + list(call))
         if not cands:
             slots.append(["nop"])
@@ -217,7 +220,7 @@ def gen_joint(ch, dom, objects, world, st, prefer_applicable=True):
         slots.append(pick or ch.choice(cands))
     if all(s[0] == "nop" for s in slots):
         for i, ag in enumerate(agents):
-            cands = [[a["name"]] + list(call) for a in dom["actions"] for call in world.calls(a) if call and call[0] == ag]
+            cands = [[a["name"]] + list(call) for a in dom["actions"] for call in world.calls(a) if (call and call[0] == ag) or not a["params"]]
             if cands:
                 slots[i] = ch.choice(cands)
                 break
@@ -225,13 +228,15 @@ def gen_joint(ch, dom, objects, world, st, prefer_applicable=True):
 
 
 def gen(ch, tier):
-    dom, objects = G.gen_domain(ch, ma_feats())
+    dom, objects = G.gen_domain(ch, ma_feats(min_agents=1, p_zero_param=0.12))
     world = pddl.World(dom, objects)
     st = G.gen_state(ch, world, density=ch.choice([0.5, 0.8]))
     slots = gen_joint(ch, dom, objects, world, st)
     case = {"dom": dom, "objects": objects, "state": jstate(st), "slots": slots}
     if ch.flag(0.3):
         case["second"] = gen_joint(ch, dom, objects, world, st, prefer_applicable=False)
+        if ch.flag(0.25):
+            case["second"] = [["nop"] for _ in case["second"]]      # every agent idles for a step
     return case
 
 
